@@ -10,7 +10,7 @@ from . import common
 
 RULE = ("cases: (planar case, transformation in relabel (ints<->strings bijection) / reorder (node and neighbour order) / axis "
         "swap / scale by 2^k, k in -30..30, of all coordinates and distance parameters / translate by an exactly representable "
-        "offset (only without width) / a composition); non-trivial = non-empty result with >= 2 distinct states; distinct = case JSON")
+        "offset (only without width) / a composition; fork and star maps with exact ties); non-trivial = non-empty result with >= 2 distinct states; distinct = case JSON")
 ASSUMPTIONS = ["planar metric, InMemMap; graphs <= 12 nodes, traces <= 12 points", "probabilities: 1e-9 relative (translation 1e-6)",
                "a different path (after renaming) is accepted only when the probabilities agree to 1e-12 (exact tie)"]
 TOLERANCES = {"logprob": 1e-9, "translation": 1e-6, "tie": 1e-12}
